@@ -205,7 +205,27 @@ def run(P: Program, R: Report, tier: str) -> None:
     R.count("active accessors discovered", len(colls_) + len(preds_))
     A = ActionAnalysis(P)
     # ---- R10.1
-    una = [c for c in A.primitives if any(".all_features" in norm(n) or ".annotators.features" in norm(n) for n in ast.walk(A.init_of(c).node) if isinstance(n, ast.Attribute))]
+    def callee_blob(fn, depth=0, seen=None) -> str:
+        """source of the data-model / registry methods a function calls (transitively): where a set it tests against is built"""
+        seen = seen if seen is not None else set()
+        out = ""
+        if depth > 3:
+            return out
+        for c_ in ast.walk(fn.node):
+            if isinstance(c_, ast.Call) and isinstance(c_.func, ast.Attribute):
+                for g_ in P.find_funcs(c_.func.attr):
+                    if g_.cls is not None and g_.qname not in seen and any(k in g_.qname for k in (".data_model.", ".annotators.")) and g_.name not in ("__init__",):
+                        seen.add(g_.qname)
+                        out += " " + norm(g_.node) + callee_blob(g_, depth + 1, seen)
+        return out
+
+    def refuses_by_membership(c):
+        init = A.init_of(c)
+        from .util import guards_of as _g0
+
+        return any(isinstance(x, ast.Raise) and any(" in " in g_ or " not in " in g_ for g_ in _g0(init, x)) for x in ast.walk(init.node))
+
+    una = [c for c in A.primitives if refuses_by_membership(c) and any(k in norm(A.init_of(c).node) + callee_blob(A.init_of(c)) for k in (".all_features", ".annotators.features", "annotators."))]
     if not una:
         raise AnalysisError("attribute-update primitive with a protected set not found")
     for c in una:
@@ -220,6 +240,8 @@ def run(P: Program, R: Report, tier: str) -> None:
         for setname in sorted(tested):
             feeds = [norm(s) for s in ast.walk(init.node) if isinstance(s, (ast.Assign, ast.Expr, ast.AugAssign)) and setname in norm(s)]
             blob = " ".join(feeds) + " " + setname
+            if any(isinstance(c_, ast.Call) for s_ in ast.walk(init.node) if isinstance(s_, ast.Assign) and setname in norm(s_) for c_ in ast.walk(s_.value)):
+                blob += callee_blob(init)
             if ".all_features" not in blob and "features" not in blob:
                 continue  # an unrelated membership test
             R.check(".all_features" in blob, "R10.1", init, init.node, f"{c.name}: the protected set `{setname}` is built from ALL annotator features",
@@ -237,7 +259,7 @@ def run(P: Program, R: Report, tier: str) -> None:
         if f.cls.name == reg.name:
             kerr = [pr for pr in results if pr.kind == "raise" and pr.last is not None and pr.last.name == "KeyError"]
             R.check(bool(kerr), "R10.2", f, f.node, f"{f.short} rejects unknown keys with KeyError (on some path, possibly in a helper)", "no KeyError raise reachable", via="typestate")
-            srcs = " ".join(norm(g.node) for g in [f] + [m for m in reg.methods.values() if any(isinstance(c, ast.Call) and call_name(c) == m.name for c in ast.walk(f.node))])
+            srcs = norm(f.node) + callee_blob(f)
             R.check(".all_features" in srcs, "R10.2", f, f.node, f"{f.short} validates against all_features (everything that can be managed)", "", via="provenance")
     # ---- R10.10 no implicit refusal half-way: removing a requested key from a registry / dictionary cannot raise for a key that
     # is known but not currently listed (disable of an available, not enabled feature; a repeated or duplicated key)
@@ -326,7 +348,19 @@ def run(P: Program, R: Report, tier: str) -> None:
         R.check(bool(acts) and bool(regs), "R10.4", f, f.node, what, norm(f.node)[:100], via="syntax")
         for g, kp, fp, forms in regs:
             for lp in [x for x in ast.walk(g.node) if isinstance(x, ast.For) and any(x_ in norm(x) for x_ in forms)]:
-                R.check(norm(lp.iter) == kp, "R10.4", g, lp, f"{g.short}: the registry loop runs over the requested keys", norm(lp.iter), via="dataflow")
+                from ..resolve import Resolver as _Rs104
+
+                it = _Rs104(P, g).expand(lp.iter)
+                lab = f"{g.short}: the registry loop runs over the requested keys"
+                if norm(lp.iter) == kp or norm(it) == kp:
+                    R.ok("R10.4", g, lp, lab, norm(lp.iter), via="dataflow")
+                elif isinstance(it, (ast.ListComp, ast.GeneratorExp)) and len(it.generators) == 1 and norm(it.generators[0].iter) == kp and norm(it.elt) == norm(it.generators[0].target) \
+                        and all(isinstance(c_, ast.Compare) and len(c_.ops) == 1 and isinstance(c_.ops[0], (ast.In, ast.NotIn)) and norm(c_.comparators[0]) == fp for c_ in it.generators[0].ifs):
+                    R.ok("R10.4", g, lp, lab, f"`{norm(it)[:70]}`: the requested keys, minus those whose registry state is already right", via="dataflow")
+                elif kp not in {x.id for x in ast.walk(it) if isinstance(x, ast.Name)}:
+                    R.fail("R10.4", g, lp, lab, f"the loop runs over `{norm(it)[:60]}`, not over the requested keys")
+                else:
+                    R.undecided("R10.4", g, lp, lab, f"iterates `{norm(it)[:70]}`")
     # ---- R10.5
     for a in P.annotators():
         comp = a.methods.get("compute")
